@@ -4,7 +4,7 @@ from hc_oracles import bounds_oracle
 
 PROP = "C06"
 COQ_FILE = "props/C06.v"
-THEOREMS = ["C06_recv_alloc_bounded", "C06_recv_alloc_is_sum", "C06_send_bounds", "C06_same_rounding"]
+THEOREMS = ["C06_recv_alloc_bounded", "C06_recv_alloc_is_sum", "C06_send_bounds", "C06_same_rounding", "C06_half_connection_recv_bounded", "C06_half_connection_send_bounded"]
 USES_FLOATS = True
 NEEDS_RELEASE = True
 ASSUMPTIONS = [
